@@ -177,7 +177,7 @@ Proof.
     assert (Vm : vals_wf merged).
     { intros k v Hl. destruct (mlm_aux_values _ _ _ _ _ _ _ _ H3 Hl) as [(s & k' & Hin & Hk & Hr)|Ha].
       - rewrite Forall_forall in IH. eapply (IH s Hin); [| |exact Hr].
-        + eapply wf_arr_In; eauto.
+        + apply (wf_arr_In sl s Hw Hin).
         + now apply vals_wf_jget.
       - eapply Vd; eauto. }
     apply rebuild_dest_spec in H4 as [-> _].
@@ -200,7 +200,7 @@ Proof.
       * destruct (mobj_aux_has _ _ _ _ _ _ EM Es) as (dv & r & Hin & Hr & Hl').
         rewrite Hl' in Hl. inversion Hl; subst v.
         rewrite Forall_forall in IH. eapply (IH (k, dv) Hin); [| |exact Hr].
-        -- eapply wf_obj_In; eauto.
+        -- apply (wf_obj_In sm k dv Hw Hin).
         -- now apply vals_wf_jget.
       * rewrite (mobj_aux_other _ _ _ _ _ k EM Es) in Hl. eapply Vd; eauto.
 Qed.
